@@ -1,10 +1,10 @@
-\* MC_mtu -- generated by mkcfg.py; payload lengths around the padding and buffer boundaries
+\* MC_veto -- generated by mkcfg.py; the operator's verdict about (c1, A) changes at run time: installed entries live out their time, refreshes are refused
 SPECIFICATION Spec
 VIEW View
 CONSTANTS
   Clients = {"c1"}
   Users = {"u1"}
-  PeerIPs = {"A"}
+  PeerIPs = {"A", "B"}
   PeerPorts = {1}
   Fam <- MCFam
   ListenFam <- MCListenFam
@@ -13,8 +13,8 @@ CONSTANTS
   ChanNums = {16384}
   LifeReqs <- MCLifeAbsent
   Txids = {"t1"}
-  Pays = {"p", "stunlike", "chanlike", "zeros", "cookie"}
-  Lens <- MCLensMTU
+  Pays = {"p"}
+  Lens <- MCLenSmall
   InboundMTU = 1600
   PermSeqs <- MCPermSeqs1
   DefaultLife = 5
@@ -22,11 +22,11 @@ CONSTANTS
   ChanTO = 3
   MaxLife = 3600
   Denied <- MCNoDenied
-  Vetoable = {}
+  Vetoable <- MCVetoable
   Toks = {"none"}
   ResvTO = 30
   QuotaDenied = {}
-  MaxDepth = 4
+  MaxDepth = 8
 CONSTRAINT DepthBound
 INVARIANTS TypeOK C01_NeverInstalled NoOrphans C08_Bijection C08_Range C19_ReservedOnce
 PROPERTIES C01_OnlyAuthorised C01_AskedEveryTime C02_OnlyPermitted C04_Isolation C05_WithinLimitsDelivered C06_Exact C07_FullRestart C08_Conflict400 C19_SecondAllocate C19_TokenNeedsReservation
